@@ -152,6 +152,36 @@ def producer_rules(facts, e):
             probs.append("with footer %s%s the token computed is\n      %s\n   the specification's is\n      %s" % (fc, (", assertion " + ac) if V in ("V3", "V4") else "", _diff(got, want)[0], _diff(got, want)[1]))
         elif len(samples) < 1:
             samples.append(got)
+    if V in ("V3", "V4"):
+        # the implicit assertion reaches the token only below the fixed-length tag / signature: every occurrence of A in the token's
+        # description sits inside a MAC / signature / digest application (the token's length and text do not depend on it)
+        ia = []
+        for o in outs:
+            kind, r = _variant(I, o)
+            if kind != "Ok":
+                continue
+            d = PS.cd(I, o.state, r.fields["0"])
+            for m_ in re.finditer(r"(?<![\w'\.])A(?![\w'\(\[])|len\(A\)", d):
+                # enclosing function applications
+                depth, i, encl = 0, m_.start(), []
+                while i > 0:
+                    i -= 1
+                    ch = d[i]
+                    if ch == ")":
+                        depth += 1
+                    elif ch == "(":
+                        if depth == 0:
+                            j = i
+                            while j > 0 and (d[j - 1].isalnum() or d[j - 1] in "-_.[]"):
+                                j -= 1
+                            encl.append(d[j:i])
+                        else:
+                            depth -= 1
+                if not any(re.match(r"^(blake2b-\d+|hmac-sha\d+|sha\d+|\w+\.sign|[\w-]+\.sign)$", e_) for e_ in encl):
+                    ia.append("the implicit assertion occurs in the token outside the tag / signature: ...%s..." % d[max(0, m_.start() - 60):m_.end() + 30])
+                    break
+        out.append(Finding("C06.S3", not ia, e.id, "assertion only below the tag / signature" if not ia else ia[0][:90], "; ".join(sorted(set(ia)))[:600], v.file(), e.body["line"],
+                           "%s: the implicit assertion enters the token only inside the fixed-length tag / signature" % e.label))
     if n_ok == 0:
         probs.append("no successful path")
     need = {(f, a) for f in ("none", "empty", "some") for a in (("none", "some") if V in ("V3", "V4") else ("none",))}
